@@ -66,12 +66,32 @@ Definition set (a : biguint) (idx : nat) (x : N) : biguint :=
   | Large v => Large (set_list v idx x)
   end.
 
+(* value_push existed until commit fcf264e (used by the old
+   add_assign_internal); kept for add_assign_internal_old *)
 Definition value_push (a : biguint) (x : N) : biguint :=
   if x =? 0 then a
   else match make_large a with
        | Large v => Large (v ++ [x])
        | Small n => Small n   (* unreachable!() after make_large *)
        end.
+
+(* significant_len (since commit 2c2d128): limbs excluding leading zero
+   limbs, at least 1; rposition(|limb| *limb != 0).map_or(1, |idx| idx + 1) *)
+Fixpoint last_nz (v : list N) : option nat :=
+  match v with
+  | [] => None
+  | x :: r =>
+    match last_nz r with
+    | Some i => Some (S i)
+    | None => if x =? 0 then None else Some O
+    end
+  end.
+
+Definition significant_len (a : biguint) : nat :=
+  match a with
+  | Small _ => 1%nat
+  | Large v => match last_nz v with Some i => S i | None => 1%nat end
+  end.
 
 (* impl Ord: cmp *)
 Fixpoint cmp_loop (i : nat) (a b : biguint) : comparison :=
@@ -111,9 +131,18 @@ Fixpoint aai_loop (cnt i : nat) (self other : biguint) (d : N) (shift : nat) (ca
 Definition add_assign_internal (self other : biguint) (d : N) (shift : nat) : biguint :=
   let n := Nat.max (value_len self) (value_len other + shift) in
   let '(self', carry) := aai_loop n 0 self other d shift 0 in
-  if carry =? 0 then self' else value_push self' carry.
+  if carry =? 0 then self' else set self' n carry.
 
 Definition add (a b : biguint) : biguint := add_assign_internal a b 1 0.
+
+(* the code before commit fcf264e pushed the final carry (value_push); that
+   lost the carry position when self was still Small after the loop *)
+Definition add_assign_internal_old (self other : biguint) (d : N) (shift : nat) : biguint :=
+  let n := Nat.max (value_len self) (value_len other + shift) in
+  let '(self', carry) := aai_loop n 0 self other d shift 0 in
+  if carry =? 0 then self' else value_push self' carry.
+
+Definition add_old (a b : biguint) : biguint := add_assign_internal_old a b 1 0.
 
 (* sub *)
 Fixpoint sub_loop (res : list N) (i : nat) (other : biguint) (carry : N) : list N * N :=
@@ -284,6 +313,13 @@ Definition pow_internal (a : biguint) (e : N) : biguint :=
 Definition pow (a b : biguint) : res biguint :=
   if is_zero a && is_zero b then Err EZeroPowZero
   else if is_zero b then Ok (Small 1)
+  else if Nat.ltb 1 (significant_len b) then Err EExpTooLarge
+  else Ok (pow_internal a (get b 0)).
+
+(* before commit 2c2d128 the test was value_len() > 1 *)
+Definition pow_old (a b : biguint) : res biguint :=
+  if is_zero a && is_zero b then Err EZeroPowZero
+  else if is_zero b then Ok (Small 1)
   else if Nat.ltb 1 (value_len b) then Err EExpTooLarge
   else Ok (pow_internal a (get b 0)).
 
@@ -307,8 +343,8 @@ Definition wf (a : biguint) : bool :=
   | Large v => negb (match v with [] => true | _ => false end) && forallb (fun x => x <? W) v
   end.
 
-(* the inputs on which add_assign_internal loses the final carry
-   (biguint.rs:401 value_push after skipped zero limbs of a Small self) *)
+(* the inputs on which the OLD add_assign_internal lost the final carry
+   (value_push after skipped zero limbs of a Small self; repaired in fcf264e) *)
 Definition aai_known (self other : biguint) (d : N) (shift : nat) : bool :=
   match self with
   | Small x =>
@@ -318,7 +354,7 @@ Definition aai_known (self other : biguint) (d : N) (shift : nat) : bool :=
   end.
 Definition add_known (a b : biguint) : bool := aai_known a b 1 0.
 
-(* the inputs on which pow answers "exponent too large" although the
-   exponent fits a machine word (leading zero limbs) *)
+(* the inputs on which the OLD pow answered "exponent too large" although the
+   exponent fits a machine word (leading zero limbs; repaired in 2c2d128) *)
 Definition pow_known (a b : biguint) : bool :=
   negb (is_zero b) && Nat.ltb 1 (value_len b) && (val b <? W).
